@@ -27,6 +27,8 @@ def main():
     from crosshair.util import IgnoreAttempt
     from engine.native import unjson
 
+    import harness  # noqa: F401  (package must be in sys.modules for CrossHair option lookup)
+
     modname = "harness." + os.path.splitext(os.path.basename(path))[0]
     with prefer_pure_python_imports():
         spec = importlib.util.spec_from_file_location(modname, path)
